@@ -72,7 +72,13 @@ def run(tier, seed, replay=None):
             prec = rng.choice([None, "c", "r"])
             guess = solverkit.rand_tt_float(rng, N, solverkit.ranks(rng, len(N), 3), dt) if rng.random() < 0.4 else None
             gk = "random" if guess is not None else "none"
-            if guess is not None and (rng.random() < 0.5 or i in (9, 13)):          # guesses of zero norm, b itself
+            if i in (17, 18) or rng.random() < 0.08:
+                # a guess exactly orthogonal to a one-hot right-hand side (two different unit tensors): the interfaces <guess, b> vanish while the guess does not
+                hot = lambda idx: torchtt.TT([torch.eye(n_, dtype=dt)[j_].reshape(1, n_, 1) for n_, j_ in zip(N, idx)])
+                ib = [rng.randrange(n_) for n_ in N]; ig = [(j_ + 1) % n_ for j_, n_ in zip(ib, N)]
+                if i == 18: ig = list(ib); ig[-1] = (ib[-1] + 1) % N[-1]            # differs in the last mode only
+                b = hot(ib) * rng.choice([1.0, 3.0]); guess = hot(ig); gk = "orthogonal one-hot"
+            elif guess is not None and (rng.random() < 0.5 or i in (9, 13)):          # guesses of zero norm, b itself
                 gk = rng.choice(["zeros", "0*b", "zero-core", "b"])
                 if gk == "zeros": guess = torchtt.zeros(N, dtype=dt)
                 elif gk == "0*b": guess = 0 * b
@@ -83,7 +89,7 @@ def run(tier, seed, replay=None):
             lk = rng.choice([{}, {}, {"max_full": 0}, {"max_full": 0, "local_iterations": rng.choice([4, 6, 10]), "resets": rng.choice([6, 10])}])
             if i in (9, 11): lk = {"max_full": 0, "local_iterations": 6, "resets": 10}
             desc = {"routine": which, "N": N, "family": kind, "eps": eps, "preconditioner": prec, "guess": guess is not None, "guess_kind": gk, "torch_seed": sd, "local": lk}
-            key = "amen_solve %s prec=%s%s" % (kind, prec, " gmres-restarts" if "resets" in lk else (" gmres" if lk else ""))
+            key = "amen_solve %s prec=%s%s%s" % (kind, prec, " gmres-restarts" if "resets" in lk else (" gmres" if lk else ""), " orthogonal-guess" if gk.startswith("orth") else "")
             ops = {"A": A, "b": b}
             if guess is not None: ops["guess"] = guess
             snaps = {k: history.Snap(v) for k, v in ops.items()}
@@ -105,9 +111,13 @@ def run(tier, seed, replay=None):
             cond_slack = 1e3
             if dxy > cond_slack * eps: V.fail("amen_solve: the two backends disagree beyond the tolerance [%s]" % key, dict(desc, rel_difference=dxy))
         else:
-            d = rng.choice([2, 3, 4, 5])
+            d = rng.choice([2, 3, 4, 5]) if i not in (12, 20) else 1      # order 1: a single core, no bond to sweep over
             N = [rng.choice([2, 3, 4, 5]) for _ in range(d)]; M = [rng.choice([2, 3, 4]) for _ in range(d)]
-            A = solverkit.rand_ttm_float(rng, M, N, solverkit.ranks(rng, d, 3), dt); x = solverkit.rand_tt_float(rng, N, solverkit.ranks(rng, d, 3), dt)
+            # dtype of the operands: the C11 class has real and complex operands for the DMRG product (the repository's own tests use complex128); single precision too
+            fdt = rng.choice([dt, dt, torch.complex128, torch.float32, torch.complex64]) if i >= 8 else dt
+            if i in (14, 15, 16): fdt = [torch.complex128, torch.float32, torch.complex64][i - 14]
+            cplx_ = fdt in (torch.complex128, torch.complex64); wide = torch.complex128 if cplx_ else dt
+            A = solverkit.rand_ttm_float(rng, M, N, solverkit.ranks(rng, d, 3), wide, cplx=cplx_); x = solverkit.rand_tt_float(rng, N, solverkit.ranks(rng, d, 3), wide, cplx=cplx_)
             scale = rng.choice([1.0, 1e-6, 1e-4, 1e-6, 1e-3, 1e3, 1e6])            # the contract is relative: it must not depend on the norm of the operands
             if i < 8:                                                              # engineered: tiny operands with a loose tolerance, huge ones with a tight one
                 which_ = i % 4
@@ -115,24 +125,38 @@ def run(tier, seed, replay=None):
             x = x * scale
             eps = rng.choice([1e-12, 1e-10, 1e-8, 1e-6, 1e-4, 1e-2])
             if i < 8: eps = eps_forced
-            guess = solverkit.rand_tt_float(rng, M, solverkit.ranks(rng, d, 2), dt) if rng.random() < 0.4 else None
+            guess = solverkit.rand_tt_float(rng, M, solverkit.ranks(rng, d, 2), wide, cplx=cplx_) if rng.random() < 0.4 else None
             nswp = 40
-            if i >= 8 and rng.random() < 0.3 or i in (8, 10):      # warm start (the product itself) with a sweep budget that is used up
+            single = fdt in (torch.float32, torch.complex64)
+            if (i >= 8 and rng.random() < 0.3 or i in (8, 10)) and not single:      # warm start (the product itself) with a sweep budget that is used up
                 guess = (A @ x).round(1e-13); nswp = rng.choice([1, 2, 3])
-            desc = {"routine": which, "N": N, "M": M, "eps": eps, "guess": guess is not None, "torch_seed": sd, "scale": scale, "nswp": nswp}
-            key = "fast_matvec" + ("" if scale == 1.0 else " scaled") + (" warm-start nswp<=3" if nswp != 40 else "")
+            if fdt != wide:
+                cast = lambda t: torchtt.TT([c.to(fdt) for c in t.cores])
+                A, x = cast(A), cast(x); guess = None if guess is None else cast(guess)
+            desc = {"routine": which, "N": N, "M": M, "eps": eps, "guess": guess is not None, "torch_seed": sd, "scale": scale, "nswp": nswp, "dtype": str(fdt)}
+            key = "fast_matvec" + ("" if scale == 1.0 else " scaled") + (" warm-start nswp<=3" if nswp != 40 else "") + ("" if fdt == dt else " " + str(fdt).replace("torch.", "")) + (" order-1" if d == 1 else "")
             ops = {"A": A, "x": x}
             if guess is not None: ops["guess"] = guess
             snaps = {k: history.Snap(v) for k, v in ops.items()}
             ex = (A @ x).full(); nrm = float(ex.norm())
             ys = {}
+            if d == 1:
+                # a fault inside the extension kills the interpreter: the compiled backend sees an order-1 product first in a child process
+                prog = ("import sys, torch, torchtt\nsys.path.insert(0, %r)\ntorch.manual_seed(%d)\n"
+                        "A = torchtt.random([(%d, %d)], [1, 1]); x = torchtt.random([%d], [1, 1])\ny = A.fast_matvec(x, use_cpp=True)\n"
+                        "print('ERR', float((y.full() - (A @ x).full()).norm()))\n") % (lib, sd, M[0], N[0], N[0])
+                env_ = dict(os.environ, PYTHONPATH=lib + os.pathsep + common.REPO)
+                r_ = subprocess.run([sys.executable, "-W", "ignore", "-c", prog], stdout=subprocess.PIPE, stderr=subprocess.STDOUT, text=True, env=env_, timeout=600)
+                if r_.returncode != 0 or "ERR" not in r_.stdout:
+                    V.fail("fast_matvec[cpp]: an order-1 product kills the interpreter / fails", dict(desc, exit_status=r_.returncode, output=r_.stdout[-300:], program=prog)); continue
             try:
                 for name, flag in (("cpp", True), ("python", False)):
                     torch.manual_seed(sd)
                     y = A.fast_matvec(x, eps=eps, initial=guess, nswp=nswp, use_cpp=flag)
                     if history.wf_failures(y) or [int(v) for v in y.N] != M: V.fail("fast_matvec[%s]: result has the wrong shape" % name, desc); raise StopIteration
                     ys[name] = float((y.full() - ex).norm())
-                    if ys[name] > 30.0 * eps * nrm + 1e-11 * nrm: V.fail("fast_matvec[%s]: error exceeds 30*eps" % name, dict(desc, rel_err=ys[name] / nrm))
+                    if ys[name] > 30.0 * eps * nrm + (2e-5 if single else 1e-11) * nrm: V.fail("fast_matvec[%s]: error exceeds 30*eps" % name, dict(desc, rel_err=ys[name] / nrm))
+                    if y.cores[0].dtype != fdt: V.fail("fast_matvec[%s]: dtype changed" % name, desc)
             except StopIteration:
                 continue
             except Exception as ex_:
@@ -141,6 +165,49 @@ def run(tier, seed, replay=None):
         if i % 8 == 0 and len(samples) < 5: samples.append(desc)
         bad = solverkit.intact(snaps, list(ops.values()))
         if bad: V.fail("%s (some backend) modified an operand: %s" % (which, bad[0].split(":")[0]), dict(desc, differences=bad))
+    # dispatch correspondence: which backend is entered, for every (use_cpp, order, preconditioner), against Model/CppRank.v (dispatch_solve, dispatch_matvec)
+    import torchtt._dmrg as DMm, torchtt.solvers as SVm
+    class _Proxy:
+        def __init__(self, real): self.real = real; self.calls = []
+        def dmrg_mv(self, *a_, **k_):
+            self.calls.append(("dmrg_mv", None))
+            if len(a_[3]) < 2: raise RuntimeError("entered")          # the compiled sweep is not run on a single core (it faults): the selection is what is recorded
+            return self.real.dmrg_mv(*a_, **k_)
+        def amen_solve(self, *a_, **k_): self.calls.append(("amen_solve", a_[-1])); return self.real.amen_solve(*a_, **k_)
+        def __getattr__(self, nm): return getattr(self.real, nm)
+    obs, exprs, labels = [], [], []
+    pcode = {None: "PNone", "c": "PC", "r": "PR", "x": "POther"}
+    prox = _Proxy(torchttcpp); old = (DMm.torchttcpp, SVm.torchttcpp); DMm.torchttcpp = prox; SVm.torchttcpp = prox
+    try:
+        for use in (True, False):
+            for d_ in (1, 2, 3):
+                Nn = [3] * d_
+                A_ = solverkit.rand_ttm_float(rng, Nn, Nn, [1] + [2] * (d_ - 1) + [1], dt); x_ = solverkit.rand_tt_float(rng, Nn, [1] + [2] * (d_ - 1) + [1], dt)
+                prox.calls = []
+                try: A_.fast_matvec(x_, use_cpp=use); o_ = 1 if prox.calls else 0
+                except Exception: o_ = 1 if prox.calls else 9
+                obs.append([o_]); labels.append("fast_matvec use_cpp=%s order=%d" % (use, d_))
+                exprs.append("[backend_code (dispatch_matvec true %s %d)]" % ("true" if use else "false", d_))
+            for pr_ in (None, "c", "r", "x"):
+                A_ = torchtt.eye([3, 3], dtype=dt) * 2.0; b_ = solverkit.rand_tt_float(rng, [3, 3], [1, 2, 1], dt)
+                prox.calls = []
+                try:
+                    torchtt.solvers.amen_solve(A_, b_, preconditioner=pr_, use_cpp=use, verbose=False, nswp=3)
+                    o_ = (1 + int(prox.calls[0][1])) if prox.calls else 0
+                except Exception as ex_:
+                    o_ = 9 if type(ex_).__name__ == "InvalidArguments" and not prox.calls else 8
+                if not use and pr_ == "x": continue            # the Python solver's handling of an unknown preconditioner is C18's business
+                obs.append([o_]); labels.append("amen_solve use_cpp=%s preconditioner=%r" % (use, pr_))
+                exprs.append("[backend_code (dispatch_solve true %s %s)]" % ("true" if use else "false", pcode[pr_]))
+    finally:
+        DMm.torchttcpp, SVm.torchttcpp = old
+    try:
+        mres = coqrun.eval_nat_lists("C17_disp", "From TT Require Import CppRank.", "", exprs)
+        for lab, o_, m_ in zip(labels, obs, mres):
+            if o_ != m_: V.fail("dispatch differs from the model: %s" % lab, {"case": lab, "observed_backend_code": o_, "model_backend_code": m_})
+        dist["dispatch rows"] = len(labels)
+    except Exception as ex_:
+        V.fail("dispatch correspondence: the model could not be evaluated", {"exc": str(ex_)[:300]}, failing_input=False)
     # dispatch: an invalid preconditioner raises with the extension, use_cpp=False never reaches it
     A, b, N, kind = c12.gen_system(rng, torch, torchtt)
     try:
@@ -153,7 +220,8 @@ def run(tier, seed, replay=None):
         rule=("the extension is built from /repo/cpp as it is now (-std=c++20 -O2, cached by the hash of the sources) and put on sys.path; amen_solve on the C12 families (SPD, "
               "diagonally dominant, Laplacian-like; preconditioner None/'c'/'r'; with and without guess) and fast_matvec on random operands run through BOTH backends from the same "
               "seed: each must meet its contract (50*eps residual / 30*eps error), the solutions must agree within 1e3*eps, results must be well formed, operands bitwise intact; "
-              "the dispatch on an unknown preconditioner is exercised"),
+              "fast_matvec also on complex128 / float32 / complex64 operands and on order-1 operands, amen_solve also from guesses orthogonal to a one-hot b; "
+              "the backend actually entered (proxy around the extension module) is compared with Model/CppRank.v for every (use_cpp, order 1..3) and (use_cpp, preconditioner) row"),
         samples=samples, distribution=dist, extension=os.path.basename(os.path.dirname(lib)), build=blog[-200:] if blog.startswith("cached") else "built", known_findings_reproduced=V.known_hit,
         partial=["the C++ AMEn / DMRG bodies are a second implementation: convergence is measured, not proved; proved: agreement of the C++ rank-selection loop with the Python rule on a "
                  "stated bounded domain (kernel evaluation), their difference at eps <= 0, totality of the dispatch"])
